@@ -262,6 +262,8 @@ struct Sys {
     tok: Address,
     cmp: Address,
     idv: Address,
+    /// amounts are logged in the i128-edge regime (`fine_amount`)
+    edge: bool,
 }
 
 fn jopt(names: &Names, a: &Option<Address>) -> Value {
@@ -269,7 +271,7 @@ fn jopt(names: &Names, a: &Option<Address>) -> Value {
 }
 
 impl Sys {
-    fn new(accts: &[String]) -> Sys {
+    fn new(accts: &[String], edge: bool) -> Sys {
         let e = new_env(&LedgerCfg::default());
         let mut all: Vec<&str> = accts.iter().map(|s| s.as_str()).collect();
         all.push(OPERATOR);
@@ -277,12 +279,14 @@ impl Sys {
         let cmp = e.register(compliance::MockCompliance, ());
         let idv = e.register(idv::MockIdentityVerifier, ());
         let tok = e.register(token::RwaToken, (names.get(OPERATOR), cmp.clone(), idv.clone()));
-        Sys { e, names, accts: accts.to_vec(), tok, cmp, idv }
+        Sys { e, names, accts: accts.to_vec(), tok, cmp, idv, edge }
     }
 
     fn obs(&self) -> Value {
         no_auth(&self.e);
         let cl = token::RwaTokenClient::new(&self.e, &self.tok);
+        let edge = self.edge;
+        let jint = |v: i128| if edge { fine_units(v, -999_999) } else { jint(v) };
         let mut bal = JMap::new();
         let mut frozen = JMap::new();
         let mut afrozen = JMap::new();
@@ -306,6 +310,8 @@ impl Sys {
     fn calls(&self) -> Value {
         no_auth(&self.e);
         let cl = compliance::MockComplianceClient::new(&self.e, &self.cmp);
+        let edge = self.edge;
+        let jint = |v: i128| if edge { fine_units(v, -999_999) } else { jint(v) };
         let mut out = Vec::new();
         for c in cl.take_log().iter() {
             out.push(json!({
@@ -325,7 +331,7 @@ impl Sys {
         let now = seq(e);
         let who = auth_addrs(op, &self.names);
         let kind = s(op, "op");
-        let amt = n(op, "amt") as i128;
+        let amt = if self.edge { fine_amount(n(op, "amt")) } else { n(op, "amt") as i128 };
         let flag = op.get("flag").and_then(|v| v.as_bool()).unwrap_or(false);
         let nm = |k: &str| self.names.get(s(op, k));
         let cl = token::RwaTokenClient::new(e, &self.tok);
@@ -422,7 +428,8 @@ impl Sys {
             k => panic!("op {k}"),
         };
         // mint / burn / transfer events emitted by the token in this invocation
-        let conv = |v: i128| jint(v);
+        let edge = self.edge;
+        let conv = move |v: i128| if edge { fine_units(v, -999_999) } else { jint(v) };
         let mut evs: Vec<Value> = Vec::new();
         if !matches!(kind, "set_id" | "set_ct" | "set_cc" | "set_rec") {
             for (topics, data) in events_of(e, &self.names, &self.tok, &conv) {
@@ -443,7 +450,7 @@ impl Sys {
 }
 
 fn reset_event(sys: &Sys) -> Value {
-    json!({"op": {"op": "reset", "accts": sys.accts}, "now": seq(&sys.e), "res": "ok", "err": 0, "ret": "-",
+    json!({"op": {"op": "reset", "accts": sys.accts, "edge": sys.edge}, "now": seq(&sys.e), "res": "ok", "err": 0, "ret": "-",
            "obs": sys.obs(), "calls": [], "evs": []})
 }
 
@@ -460,7 +467,8 @@ fn main() {
                     Some(a) => a.iter().map(|x| x.as_str().expect("acct").to_string()).collect(),
                     None => vec!["a".into(), "b".into(), "c".into()],
                 };
-                let mut sys = Sys::new(&accts);
+                let edge = b.cfg.get("edge").and_then(|v| v.as_bool()).unwrap_or(false);
+                let mut sys = Sys::new(&accts, edge);
                 t.reset(reset_event(&sys));
                 for op in &b.ops {
                     let ev = sys.step(op);
@@ -481,7 +489,10 @@ fn main() {
                 let an: Vec<&str> = accts.iter().map(|x| x.as_str()).collect();
                 let mut everyone = an.clone();
                 everyone.push(OPERATOR);
-                let mut sys = Sys::new(&accts);
+                // one run in five works at the i128 edge (amounts: whole units of 2^124 +- 1, i128::MAX)
+                let edge = run % 5 == 4;
+                let lat = |x: i64| if edge { (x + FINE / 2).div_euclid(FINE) * FINE } else { x };
+                let mut sys = Sys::new(&accts, edge);
                 t.reset(reset_event(&sys));
                 let mut obs = sys.obs();
                 // per-run temperament: how often the gates get closed
@@ -540,11 +551,16 @@ fn main() {
                         }
                     }
                     let open = r.gen_bool(p_open);
-                    let rb = r.gen_range(0..=bal.max(1));
-                    let ra = r.gen_range(0..=alw.max(1));
+                    let rb = lat(r.gen_range(0..=bal.max(1)));
+                    let ra = lat(r.gen_range(0..=alw.max(1)));
+                    let supply = obs["supply"].as_i64().unwrap_or(0);
                     let op = match kind {
                         "mint" => {
-                            let a = *pick(&mut r, &[-1i64, 0, 1, 1, 2, 3, 5, 10, 40]);
+                            let a = if edge {
+                                *pick(&mut r, &[-1i64, 0, 1, FINE, 3 * FINE, 5 * FINE, 7 * FINE, AMAX, AMAX - supply, AMAX - supply + 1, AMAX - supply - 1])
+                            } else {
+                                *pick(&mut r, &[-1i64, 0, 1, 1, 2, 3, 5, 10, 40])
+                            };
                             let au = auth_of(&mut r, sup);
                             mkop("mint", "none", to, sup, a, false, 0, au, dt)
                         }
@@ -559,7 +575,7 @@ fn main() {
                             mkop("transfer_from", from, to, spn, a, false, 0, au, dt)
                         }
                         "approve" => {
-                            let a = *pick(&mut r, &[-1i64, 0, 1, 2, 3, bal, bal + 1, free, 100]);
+                            let a = *pick(&mut r, &[-1i64, 0, 1, 2, 3, bal, bal + 1, free, 100, if edge { AMAX } else { 7 }]);
                             let du = *pick(&mut r, &[-1i64, 0, 0, 1, 2, 5, 50, 1000, 1000, 100_000]);
                             let au = auth_of(&mut r, from);
                             mkop("approve", from, "none", spn, a, false, now + dt + du, au, dt)
@@ -579,12 +595,12 @@ fn main() {
                             mkop("recover", from, to, sup, 0, false, 0, au, dt)
                         }
                         "freeze" => {
-                            let a = *pick(&mut r, &[-1i64, 0, 1, 1, free, free, free + 1, free / 2, bal]);
+                            let a = *pick(&mut r, &[-1i64, 0, 1, 1, free, free, free + 1, lat(free / 2), bal]);
                             let au = auth_of(&mut r, sup);
                             mkop("freeze", from, "none", sup, a, false, 0, au, dt)
                         }
                         "unfreeze" => {
-                            let a = *pick(&mut r, &[-1i64, 0, 1, frz, frz, frz + 1, frz / 2]);
+                            let a = *pick(&mut r, &[-1i64, 0, 1, frz, frz, frz + 1, lat(frz / 2)]);
                             let au = auth_of(&mut r, sup);
                             mkop("unfreeze", from, "none", sup, a, false, 0, au, dt)
                         }
